@@ -829,6 +829,8 @@ class OdeSystem(object):
     def __get_integrator_mask(self, staggered_mask):
         if staggered_mask is None and hasattr(self.integrator, "staggered_mask"):
             return self.integrator.staggered_mask
+        if staggered_mask is None:
+            return self.staggered_mask
         return staggered_mask
 
     @property
